@@ -40,6 +40,8 @@ def np_apply(form, args):
             '(a*b)+c': lambda: np_apply('add', [np_apply('mul', [a, b]), c]), 'a-(b/c)': lambda: np_apply('sub', [a, np_apply('div', [b, c])]),
             '(a+b).dot(c)': lambda: np.dot(np_apply('add', [a, b]), c), 'a.dot(b)+c': lambda: np_apply('add', [np.dot(a, b), c]),
             'a.dot(b).dot(c)': lambda: np.dot(np.dot(a, b), c), 'a.dot(b+c)': lambda: np.dot(a, np_apply('add', [b, c])),
+            'c+a.dot(b)': lambda: np_apply('add', [c, np.dot(a, b)]), 'c*a.dot(b)': lambda: np_apply('mul', [c, np.dot(a, b)]),
+            'a.dot(b)-c': lambda: np_apply('sub', [np.dot(a, b), c]), 'a.dot(b)/c': lambda: np_apply('div', [np.dot(a, b), c]),
             'sum': lambda: np.sum(a), 'prod': lambda: np.prod(a), 'mean': lambda: np.mean(a), 'median': lambda: np.median(a),
             'stddev': lambda: np.std(a), 'size': lambda: float(np.shape(a)[0]),
             'rank1': lambda: rank(a, 1), 'rank2': lambda: rank(a, 2), 'rank9': lambda: rank(a, 9), 'rankneg': lambda: rank(a, -1)}[form]()
@@ -111,6 +113,9 @@ def main():
             sh = rnd.choice(X.shapes(3))
             kinds = (rnd.choice([rnd.choice(shp), ('D', rnd.choice(['add', 'sub', 'mul', 'div']), sh, rnd.choice([sh, 'S'])),
                                  rnd.choice([('R',) + r for r in X.reshapes(3)])]),)
+        elif form in X.MIXED:
+            m_, n_ = rnd.randint(1, 3), rnd.randint(1, 3)
+            kinds = rnd.choice([((m_, n_), (n_,), rnd.choice(X.shapes(3))), ((m_,), (m_, n_), rnd.choice(X.shapes(3)))])
         else:
             s = rnd.choice(shp)
             kinds = (s, s, s)
